@@ -23,6 +23,7 @@ type JobSpec struct {
 	Cases    map[string][]int `json:"cases"`
 	MapOrder string           `json:"map_order,omitempty"`
 	MaxPaths int              `json:"max_paths,omitempty"`
+	MaxSteps int              `json:"max_steps,omitempty"`
 }
 
 type CheckSpec struct {
@@ -30,6 +31,7 @@ type CheckSpec struct {
 	Package       string               `json:"package"`
 	PackageName   string               `json:"package_name,omitempty"`
 	HarnessFiles  []string             `json:"harness_files"`
+	WhiteboxFiles []string             `json:"whitebox_files,omitempty"` // subset of harness_files that touches unexported state
 	Jobs          map[string][]JobSpec `json:"jobs"`
 	RequiredCover []string             `json:"required_cover"`
 	CrossEvery    map[string]int       `json:"cross_every,omitempty"`
@@ -49,6 +51,7 @@ type Job struct {
 	cases    map[string]int
 	mapOrder string
 	maxPaths int
+	maxSteps int
 	// results
 	mu        sync.Mutex
 	paths     map[outcomeKind]int
@@ -292,7 +295,7 @@ func expandJobs(prog *Program, specs []JobSpec) ([]*Job, error) {
 		}
 		for _, c := range combos {
 			jobs = append(jobs, &Job{id: len(jobs), entry: fn, name: js.Entry, cases: c, mapOrder: js.MapOrder,
-				maxPaths: js.MaxPaths, paths: map[outcomeKind]int{}, firstMsgs: map[outcomeKind]string{}})
+				maxPaths: js.MaxPaths, maxSteps: stepsOr(js.MaxSteps), paths: map[outcomeKind]int{}, firstMsgs: map[outcomeKind]string{}})
 		}
 	}
 	return jobs, nil
@@ -373,4 +376,11 @@ func readSpec(path string) (*CheckSpec, error) {
 		return nil, fmt.Errorf("%s: %v", path, err)
 	}
 	return &s, nil
+}
+
+func stepsOr(n int) int {
+	if n > 0 {
+		return n
+	}
+	return maxSteps
 }
